@@ -202,6 +202,7 @@ def h(
     dim: Optional[int] = None,
     weights: Optional[ArrayLike] = None,
     dtype: Optional[DTypeLike] = None,
+    keep_missed: bool = True,
     **kwargs,
 ) -> HistogramND:
     """Facade function to create n-dimensional histograms.
@@ -261,6 +262,7 @@ def h(
         name=name,
         title=title,
         dtype=dtype,
+        keep_missed=keep_missed,
     )
 
 
